@@ -54,7 +54,7 @@ theorem selected_difference_changes_pieces (l1 l2 : List UInt8) (ranges : List F
     item, out-of-range number) are errors. -/
 theorem parse_matches_cut_grammar (s : List UInt8) :
     parseFields s = (cutParse s).map (·.map Item.denote) := by
-  sorry
+  exact PV.Lemmas.Fields.parse_matches_cut_grammar' s
 
 /-- DefragmentFields: the result is well formed and selects exactly the same field numbers. -/
 theorem defragment_sound (fs gs : List FieldRange) (hfs : ∀ f ∈ fs, f.begin < f.stop ∧ f.stop ≤ kInf)
